@@ -105,6 +105,13 @@ func famDiffLinks(f *FamCtx) {
 	f.Gen = func() Case { return genVersionsCase(f.Rand, RandCfg(f.Rand), "difflinks", false) }
 	n := f.N(250, 10000)
 	for i := 0; i < n; i++ {
+		if i%11 == 10 {
+			// node diffs against a version that is taller than its entries warrant (entry-less top node)
+			c := genInterruptedDeleteCase(f.Rand, RandCfg(f.Rand))
+			c.Ops = append(c.Ops, "load 0 2", "load 1 4", "difflinks 2 4", "difflinks 4 2", "load 5 6", "difflinks 4 6")
+			f.RunTreeCase(c, faultRunner, multiLevel)
+			continue
+		}
 		if i%5 == 4 {
 			// the same node diffs on a store whose k-th Load fails once, for every k: DiffLinks either
 			// returns the error, or — when a retry inside it succeeded — the complete answer
@@ -182,6 +189,12 @@ func famDiffCost(f *FamCtx) {
 	f.Gen = func() Case { return genVersionsCase(f.Rand, RandCfg(f.Rand), "diffloads", f.Rand.Intn(3) == 0) }
 	n := f.N(250, 10000)
 	for i := 0; i < n; i++ {
+		if i%11 == 10 {
+			c := genInterruptedDeleteCase(f.Rand, RandCfg(f.Rand))
+			c.Ops = append(c.Ops, "load 0 2", "load 1 4", "diffloads 2 4", "diffloads 4 2", "load 5 6", "diffloads 4 6")
+			f.RunTreeCase(c, faultRunner, multiLevel)
+			continue
+		}
 		f.RunTreeCase(f.Gen(), exactRunner, multiLevel)
 	}
 }
